@@ -185,7 +185,9 @@ def check(ctx: Ctx, col: Collector, tier: str) -> None:
                 n1.append("module alias not shown public: " + fmt_facts(o.facts)[:160])
         # N3: the re-exporting __init__ is the declaration's own package, or the key names the declaration / its module
         same_pkg = any(re.fullmatch(r"(<self\.api\.reexport_map\[.*\]\[\*\]\.id>==.*|.*==<self\.api\.reexport_map\[.*\]\[\*\]\.id>)", k) and v for k, v in facts.items())
-        other_pkg = any(" in {" in k and ".rstrip(" in k and v for k, v in facts.items())
+        # the key (possibly resolved against the re-exporting package) names the declaration or its module: a membership or a
+        # non-empty intersection with {qname, module qname}
+        other_pkg = any(".rstrip(" in k and "<qname>" in k and (" in {" in k or k.startswith("truthy:BitAnd(")) and v for k, v in facts.items())
         if not (same_pkg or other_pkg):
             n3.append(fmt_facts(o.facts)[:160])
         # N2: by-name re-exports (third block): the import's qualified name is a suffix of the declaration's qualified name
